@@ -73,7 +73,7 @@ def unit_law(ch, u):
 
 
 class World(object):
-    def __init__(self):
+    def __init__(self, want_bins=False):
         d = tlc.scratch('sess_')
         self.path = os.path.join(d, 's.fcs')
         fcsgen.write_sample(self.path, EVENTS, NAMES, R, bits=16, pne=PNE, png=PNG, pnv=PNV, pns=PNS,
@@ -100,10 +100,12 @@ class World(object):
                 clustering_fxn=lambda data, n, **kw: np.arange(data.shape[0]) % n,
                 selection_fxn=None, fitting_fxn=fit)
 
+            self.ref_bins = {}
+            if not want_bins:
+                return
             # reference bins: what a pristine sample in each units answers (C19: bins are a function of channel and units)
             rfi = FlowCal.transform.to_rfi(beads)
             mef = self.to_mef(rfi, [NAMES[ch - 1] for ch in MEF_CH])
-            self.ref_bins = {}
             for u, x in ((0, beads), (1, rfi), (2, mef)):
                 for ch in range(1, 5):
                     if u == 2 and ch not in MEF_CH:
@@ -417,7 +419,7 @@ def run(chk, pid, n_sim=None, depth=None, init_units=(0, 1), every=1):
     global _W, _PID
     _PID = pid
     import multiprocessing as mp
-    _W = W = World()
+    _W = W = World(want_bins=(pid == 'C19'))
     stats = {'histories': 0, 'foreign_mismatch': 0, 'max_len': 0, 'by_len': {}}
     n_sim = n_sim or (1500 if chk.quick else 20000)
     depth = depth or (5 if chk.quick else 7)
@@ -480,5 +482,9 @@ def run(chk, pid, n_sim=None, depth=None, init_units=(0, 1), every=1):
     missing = [op for op in ATTR if not stats.get('steps_replayed', {}).get(op)]
     if missing:
         raise tlc.MachineryError('Session: steps never replayed: %r' % missing)
+    if not chk.quick and pid == 'C13':
+        # unbounded companion (extra): the structural invariants of Session are inductive (Apalache, sessions of any length)
+        from harness import apalache
+        chk.extra['apalache'] = apalache.inductive('SessionInd', indinit='IndInit')
     chk.extra.setdefault('session', stats)
     return stats
